@@ -231,7 +231,7 @@ def dispatchPure (toks : List String) : Option String :=
     -- size bookkeeping machine: state, then one token per public edit; answer: the state after every edit
     let s ← Iso.decState st
     let os ← ops.mapM Iso.decOp
-    pure (s!"{if Iso.invB s then "inv" else "!inv"} " ++ " ".intercalate (Iso.trace s os))
+    pure (s!"{if Iso.invB s && Iso.cebOkB s then "inv" else "!inv"} " ++ " ".intercalate (Iso.trace s os))
   | ["vdorder", p, b, sv, t] => do
     let c : VdOrder.Counts := { pvds := ← p.toNat?, brs := ← b.toNat?, svds := ← sv.toNat?, vdsts := ← t.toNat? }
     pure s!"{".".intercalate ((VdOrder.order c).map toString)} {if VdOrder.udfRoomForOneMore c then 1 else 0}"
